@@ -128,7 +128,9 @@ func partial(run *hx.Run, c caseT, w *world, m *modelResp, realFull, modelFull i
 	r := hx.NewRng(c.Salt)
 
 	// ---- (a) __type(name:) for a few names: described types, a meta type, unknown and withheld names
-	names := []string{"__Type", "Nope", "Int", d.Query}
+	metaNames := []string{"__Schema", "__Type", "__TypeKind", "__Field", "__InputValue", "__EnumValue", "__Directive", "__DirectiveLocation"}
+	names := []string{"Int", "Float", "String", "Boolean", "ID", metaNames[r.Intn(len(metaNames))], metaNames[r.Intn(len(metaNames))],
+		"Nope", "__Nope", "int", "Strin", d.Query}
 	user := []string{}
 	for _, t := range d.Types {
 		user = append(user, t.Name)
@@ -162,7 +164,7 @@ func partial(run *hx.Run, c caseT, w *world, m *modelResp, realFull, modelFull i
 		}
 		mt := modelType(modelFull, n)
 		if (mt != nil) != (got != nil) {
-			run.Violation(fmt.Sprintf("__type(name: %q) is %v, the model's type map says present=%v", n, hx.Canon(got) != "null", mt != nil), replay(obj{"name": n, "real": got, "closure": m.Closure}), false)
+			run.Violation(fmt.Sprintf("__type(name: %q): real present=%v, the model's type set (typesClosure) says present=%v", n, got != nil, mt != nil), replay(obj{"name": n, "real": got, "closure": m.Closure}), false)
 			return false
 		}
 		if hx.Canon(got) != hx.Canon(want) {
